@@ -153,6 +153,10 @@ def obligations(tier):
     ([[(A, 0), (Z, 0), (A, 1), (Rl, 0)], [(A, 1), (Z, 0), (Rl, 1)]], 2),
     ([[(A, 0)], [(A, 0), (Rl, 0)]], 1),
     ([[(A, 0), (Rl, 0), (A, 0), (Rl, 0)], [(T, 0), (A, 0), (Rl, 0)]], 1),
+    # a refused non-blocking acquire while the lock is held, then the holder releases and others go on using the lock
+    ([[(A, 0), (Z, 0), (Rl, 0), (Z, 0)], [(T, 0), (Z, 0), (Z, 0), (A, 0), (Rl, 0)]], 1),
+    ([[(A, 0), (Z, 0), (Rl, 0)], [(T, 0), (Z, 0), (Z, 0), (T, 0)], [(Z, 0), (Z, 0), (Z, 0), (A, 0), (Rl, 0)]], 1),
+    ([[(A, 0), (Z, 0), (Z, 0), (Rl, 0)], [(Z, 0), (T, 0), (Z, 0), (Z, 0), (Z, 0), (Z, 0)], [(Z, 0), (Z, 0), (A, 0), (Rl, 0)]], 1),
   ]
   if thorough:
     lp += [([[(A, 0), (Z, 0), (Rl, 0)]] * 3, 1), ([[(A, 0), (A, 1), (Rl, 0), (Rl, 1)], [(A, 1), (A, 0), (Rl, 1), (Rl, 0)]], 2),
